@@ -12,6 +12,7 @@ import (
 	"crypto/sha256"
 	"encoding/hex"
 	"errors"
+	"os"
 	"sort"
 	"sync"
 
@@ -35,9 +36,16 @@ var (
 	ks     *testingutils.TestKeySet
 )
 
-// KeySet returns the (cached) 4-operator spec testing key set. Read-only after creation.
+// KeySet returns the (cached) spec testing key set: 4 operators, or 7 when the process was
+// started with VERIF_RUNH_N=7 (one committee size per process). Read-only after creation.
 func KeySet() *testingutils.TestKeySet {
-	ksOnce.Do(func() { ks = testingutils.Testing4SharesSet() })
+	ksOnce.Do(func() {
+		if os.Getenv("VERIF_RUNH_N") == "7" {
+			ks = testingutils.Testing7SharesSet()
+		} else {
+			ks = testingutils.Testing4SharesSet()
+		}
+	})
 	return ks
 }
 
